@@ -147,8 +147,15 @@ func runC19(c *Ctx) {
 		if !strings.HasPrefix(funcName(f), "(*Conn).") {
 			continue
 		}
-		nLift += c.obFollow("limit restored after being lifted", f, c.direct("st:lineLimitReader.LineLimit=0"), []string{"st:lineLimitReader.LineLimit=@Server.MaxLineLength"}, nil, nil)
+		// any store of something other than the configured maximum (0 to lift it, or a raised value) counts
+		changed := func(in ssa.Instruction) bool {
+			ls := c.stdLabels(in)
+			return labelHas(ls, "st:lineLimitReader.LineLimit") && !labelHas(ls, "st:lineLimitReader.LineLimit=@Server.MaxLineLength") && funcName(in.Parent()) != "(*Conn).init"
+		}
+		nLift += c.obFollow("limit restored after being changed", f, changed, []string{"st:lineLimitReader.LineLimit=@Server.MaxLineLength"}, nil, nil)
 	}
+	// ... and only the chunk handler (and init) ever touch it
+	c.obWriters("lineLimitReader.LineLimit", "armed by init(), lifted for the duration of a chunk by handleBdat", "(*Conn).init", "(*Conn).handleBdat", "(*Client).setConn")
 	if nLift == 0 {
 		R.Note("no site lifts the line limit")
 	}
